@@ -863,7 +863,7 @@ Proof.
   intros Hc Hx Hv Hstep. unfold step in Hstep.
   change {| ms := s; mw := work0; mo := [] |} with (m_of s) in Hstep.
   rewrite (handle_gated_fail s c cs x v fresh b Hc Hx Hv) in Hstep.
-  destruct (fuel_for_pos (ms (push_remove (m_of s) c false))) as [f Ef]. rewrite Ef in Hstep.
+  destruct (fuel_for_pos ((push_remove (m_of s) c false))) as [f Ef]. rewrite Ef in Hstep.
   destruct (settle (S f) (push_remove (m_of s) c false)) as [m'|m'|] eqn:Es; try discriminate;
     injection Hstep as <- <-; eapply (settle_removes f _ c false []); eauto; reflexivity.
 Qed.
